@@ -116,7 +116,7 @@ func c09(c *ctx) {
 			env := append(os.Environ(), "GOMAXPROCS="+gomax[(j.k+ji)%len(gomax)], fmt.Sprintf("PEG_VERIF_SCHED=%d", c.env.Seed*1000+int64(j.k)*17+int64(j.ti)))
 			if j.race {
 				bin = pegRace
-				env = append(env, "GORACE=halt_on_error=0 atexit_sleep_ms=0 log_path="+filepath.Join(d, "race"))
+				env = append(env, "GORACE=halt_on_error=0 atexit_sleep_ms=0 exitcode=0 log_path="+filepath.Join(d, "race"))
 			} else {
 				env = append(env, "PEG_VERIF_TRACE="+filepath.Join(d, "trace"))
 			}
